@@ -62,6 +62,18 @@ def obligations(tier, seed):
     obs.append(Ob(id='C03.static.prime-above-2-63-in-signed-rep', prop='C03', group='C03.static', prelude='', wrappers=[], inputs=[], body=BP, kind='S',
                   contract='static facts: mag<2^64-59>() is not representable in any signed rep (and is in uint64_t): the factor of a conversion is never a wrapped prime',
                   functions_under_contract=('au::representable_in / get_value (compile-time)',)))
+    # every 64-bit integer TYPE as rep (unsigned long long / long long are distinct from the <cstdint> aliases on LP64): the runtime checkers and the conversion agree with exact arithmetic at the boundary
+    BW = '#include "au/au.hh"\n#include "au/units/meters.hh"\n#define VF_STATIC_FACT(c) static_assert(c, "VF_STATIC_FACT")\n'
+    for (T_, ok_, bad_) in (('unsigned long long', '18446744073709551ULL', '18446744073709552ULL'), ('unsigned long', '18446744073709551ULL', '18446744073709552ULL'),
+                            ('long long', '9223372036854775LL', '9223372036854776LL'), ('long', '9223372036854775LL', '9223372036854776LL')):
+        BW += ('VF_STATIC_FACT(!au::will_conversion_overflow(au::meters(static_cast<%s>(%s)), au::milli(au::meters)));\n' % (T_, ok_) +
+               'VF_STATIC_FACT(au::will_conversion_overflow(au::meters(static_cast<%s>(%s)), au::milli(au::meters)));\n' % (T_, bad_) +
+               'VF_STATIC_FACT(au::meters(static_cast<%s>(%s)).in(au::milli(au::meters)) == static_cast<%s>(%s) * 1000);\n' % (T_, ok_, T_, ok_) +
+               'VF_STATIC_FACT(!au::is_conversion_lossy(au::milli(au::meters)(static_cast<%s>(%s) * 1000), au::meters));\n' % (T_, ok_) +
+               'VF_STATIC_FACT(au::will_conversion_truncate(au::milli(au::meters)(static_cast<%s>(%s) * 1000 + 1), au::meters));\n' % (T_, ok_))
+    obs.append(Ob(id='C03.static.every-64-bit-integer-type', prop='C03', group='C03.static', prelude='', wrappers=[], inputs=[], body=BW + 'int main() {}\n', kind='S',
+                  contract='static facts: for rep in {unsigned long long, unsigned long, long long, long} the x1000 conversion of the largest fitting value is exact and not flagged, the next value is flagged as overflow, and the inverse conversion is lossless / flagged as truncating exactly when a remainder exists',
+                  functions_under_contract=('au::will_conversion_overflow', 'au::will_conversion_truncate', 'au::is_conversion_lossy', 'au::Quantity::in (compile-time)')))
     # ---- negative compile probes: programs the property says are REJECTED must be rejected by the library's own guard (supporting static facts, decided by the compilers)
     NHDR = '#include "au/au.hh"\n#include "au/units/feet.hh"\n#include "au/units/inches.hh"\n#include "au/units/meters.hh"\n#include "au/units/seconds.hh"\n#include "au/units/hertz.hh"\n#include "au/units/percent.hh"\n#include "au/units/celsius.hh"\n#include "au/units/kelvins.hh"\nusing namespace au;\n'
     for (nm_, expr_, rx_) in [('unit-only-in-unsafe-int', 'meters(1).in(kilo(meters))', 'Dangerous conversion'), ('unit-only-as-overflow-risk', 'meters(int16_t{1}).as(milli(meters))', 'Dangerous conversion')]:
